@@ -295,19 +295,23 @@ def multinest_stats(modes, multimodal, logz=-12.5, logzerr=0.1):
     return out
 
 
-def write_polychord_files(basedir, modes, logz=-12.5, logzerr=0.1):
+def write_polychord_files(basedir, modes, logz=-12.5, logzerr=0.1,
+                          cluster=True):
     """1-.txt, 1-.stats, clusters/1-_k.txt.  The .stats layout is reconstructed
-    from the wrapper's own line arithmetic (lowest-fidelity double)."""
+    from the wrapper's own line arithmetic (lowest-fidelity double).  Without
+    clustering only the main chain file and a one-row .stats are written and
+    the clusters directory is left as it was found."""
     import os
     os.makedirs(os.path.join(basedir, 'clusters'), exist_ok=True)
-    for fn in os.listdir(os.path.join(basedir, 'clusters')):
-        os.remove(os.path.join(basedir, 'clusters', fn))
+    if cluster:
+        for fn in os.listdir(os.path.join(basedir, 'clusters')):
+            os.remove(os.path.join(basedir, 'clusters', fn))
     with open(os.path.join(basedir, '1-.txt'), 'w') as f:
         for md in modes:
             for s, w, l in zip(md['samples'], md['weights'], md['m2logl']):
                 f.write(''.join(_fmt(x) for x in [w, l] + list(s) + [0.0])
                         + '\n')
-    for k, md in enumerate(modes):
+    for k, md in enumerate(modes if cluster else []):
         with open(os.path.join(basedir, 'clusters', '1-_%d.txt' % (k + 1)),
                   'w') as f:
             for s, w, l in zip(md['samples'], md['weights'], md['m2logl']):
